@@ -518,6 +518,7 @@ func c16Scenarios(tier string) []*ConcScenario {
 	}
 	progs := []prog{
 		{"put-put-flush", base, []Op{P(0, 1), P(1, 1)}, [][]Op{{P(0, 2)}, {P(1, 2)}, {opF}}},
+		{"update-pending-vs-get", base, []Op{P(0, 1), opF}, [][]Op{{P(0, 2), P(0, 3)}, {G(0), G(0)}}},
 		{"put-newkey-flush", base, []Op{P(0, 1)}, [][]Op{{P(0, 2)}, {P(1, 2), P(4, 1)}, {opF}}},
 		{"put-get-flush", base, []Op{P(0, 1), opF}, [][]Op{{P(0, 2), G(0)}, {G(0), H(1)}, {opF}}},
 		{"remove-put-flush", base, []Op{P(0, 1), P(1, 1)}, [][]Op{{R(0)}, {P(4, 2), opF}, {Z(1)}}},
